@@ -90,6 +90,11 @@ CLAIMED = {
         "Static: the reader decodes the writer's file header (format 1, track count, 72 ticks) and chunk length; note-on/off (incl. velocity 0 = off), program change and controller events come back with the fields the writer was given and the right number of bytes consumed; every one of the 30 keys, the tested meters, every tested bpm in 4..1000 (all of them in the thorough tier), track name, program number, pitch number, channel and velocity survive writer -> reader; the VLQ reader inverts the VLQ writer on boundary neighbourhoods; a bad header tag, track tag or format number raises.",
         "Not decided: the bar-rebuilding state machine (delta times -> entries/rests/bar lines), e.g. a track beginning with a rest coming back shifted. Representative parameter values, not all 2^21 event encodings. Trusted: CPython ast, abstract evaluator + engine/mididom.py (variants/c17.py), C16.",
         "DESIGN.md section 2, C17"),
+    "C18": (
+        "abstract interpretation of the sequencer with recorded hooks and a real observer (dispatch inlined) on bar/track shapes with symbolic pitches, channels, velocities, values and tempo, compared with an event model; symbolic evaluation of the control-change guards; registry / message-table / instrument-announcement evaluation; mutation-while-iterating lint",
+        "Static: for every bar shape (rest, 1-2 notes, tempo-changing container; 1-4 entries) play_Bar emits per sounding note one play_event(pitch+12, the note's channel and velocity), then sleep(240/(bpm*value)) with the tempo of that entry, then one stop_event with the same pitch and channel; rests only sleep; the final tempo is returned and threaded through play_Track; the observer's low-level stream equals the hook stream event by event; attach de-duplicates, detach removes, every listener is notified; control changes outside 0..128 (either argument, either side) return False and emit nothing, inside they emit once; every message constant is distinct and reaches the handler named for it with the keys the sequencer sends; play_Tracks announces one instrument per track on its channel before playing bars together, play_Composition defaults to channels 1..n; no loop mutates the list it iterates.",
+        "Not decided: the parallel scheduler of play_Bars (re-triggering with unequal rhythms, total sleep of parallel bars). Trusted: CPython ast, abstract evaluator (variants/c18.py), event model in rules/c18.py.",
+        "DESIGN.md section 2, C18"),
     "C06": (
         "offset-domain abstract interpretation of every chord builder (interval constructors summarised by their C02 post-condition) against a meaning-keyed chord-theory oracle; table agreement; abstract evaluation of the shorthand parser on root shapes x keys, aliases, slash, polychord, NC, list and malformed classes",
         "Static: each of the shorthand builders (incl. the lambda) yields, for 7 root letters x arbitrary accidentals, exactly the (letter, semitone) list its meaning prescribes; chord_shorthand and chord_shorthand_meaning have equal key sets; from_shorthand maps every key, every min/mi/-/maj/ma alias spelling, slash basses, polychords, NC and list input to the right builder result and rejects unknown suffixes / bad roots / bad basses with the documented errors.",
